@@ -16,7 +16,7 @@ import ast
 from ..pm import AnalysisError, ClassInfo, FuncInfo, const_str, dotted, is_self_attr, norm, walk_no_nested, flatten_targets
 from ..prov import FuncFacts
 from ..resolve import Ctx, Target, calls_in, reachable
-from .common import bind_args, call_kwargs
+from .common import bind_args, call_kwargs, static_truth
 
 SCORE_RESTORERS = ("inverse_transform_scores", "inverse_transform_scores_unseen")
 REDUCTIONS = {
@@ -85,7 +85,10 @@ def reads_in(pm, cls: ClassInfo, fn: FuncInfo, consts: dict[str, object], depth=
                 continue
             for n in walk_no_nested(st) if not isinstance(st, (ast.If, ast.For, ast.While, ast.With, ast.Try, ast.Match)) else []:
                 handle(n)
-            if isinstance(st, (ast.If, ast.While)):
+            if isinstance(st, ast.If) and static_truth(st.test, consts) is not None:
+                # `if reference == "fit": ... elif reference == "transform": ...` with a known constant argument
+                visit(st.body if static_truth(st.test, consts) else st.orelse)
+            elif isinstance(st, (ast.If, ast.While)):
                 for n in walk_no_nested(st.test):
                     handle(n)
                 visit(st.body)
@@ -330,6 +333,29 @@ def _sampleish(ff, e) -> bool:
     return False
 
 
+def _sample_count_op(p) -> str | None:
+    """the path reads the NUMBER OF SAMPLES of the value it starts from (.size, .sizes[sample], .shape[0], len())"""
+    ops = list(p.ops)
+    for i, o in enumerate(ops):
+        prev = ops[i - 1] if i else None
+        nxt = ops[i + 1] if i + 1 < len(ops) else None
+        if o.kind == "attr" and o.name == "size":
+            if prev is not None and prev.kind == "subscript":
+                if "sample" in prev.name:
+                    return "size along the sample dimension"
+                continue  # size of another (feature / mode) coordinate
+            if prev is None or prev.kind != "attr":
+                return "total size"
+        if o.kind == "attr" and o.name == "sizes" and nxt is not None and nxt.kind == "subscript" and "sample" in nxt.name:
+            return "sizes[sample]"
+        if o.kind == "attr" and o.name == "shape" and nxt is not None and nxt.kind == "subscript" and nxt.name == "0":
+            return "shape[0]"
+        if o.kind == "arg" and o.name == "len" and not any(x.kind == "attr" and x.name in ("dims", "shape") for x in ops[:i]) \
+                and not any(x.kind == "subscript" and "feature" in x.name for x in ops[:i]):
+            return "len()"
+    return None
+
+
 def _persample(chk):
     pm = chk.pm
     # functions on transform paths
@@ -370,10 +396,13 @@ def _persample(chk):
                                     along_sample = True  # full reduction includes the sample axis
                                 if along_sample:
                                     bad.append((b, op.name, p.atom.name))
+                        cnt = _sample_count_op(p)
+                        if cnt:
+                            bad.append((b, cnt, p.atom.name))
         if bad:
             for b, red, par in bad[:3]:
                 chk.violation("PERSAMPLE", fn, b,
-                              why=f"on a transform path the data '{par}' is combined with its own {red}() along the sample dimension: "
+                              why=f"on a transform path the data '{par}' is combined with its own {red + '()' if red in REDUCTIONS else 'sample count (' + red + ')'} along the sample dimension: "
                                   "a sample's scores then depend on the other samples of the new data (transform of a concatenation differs)")
         else:
             chk.ok("PERSAMPLE", fn, None, construct="<no statistic of the new data along samples fed back arithmetically>",
